@@ -141,6 +141,56 @@ def trial_state(sec, kind, wave_data):
     raise ValueError(kind)
 
 
+def extract_bra(sec, overlap_fn, restricted, seed=12345, tol=1e-9):
+    """Fock vector psi with <psi|phi> = overlap_fn(phi) for every determinant phi, for a trial that is given only as
+    an overlap routine (hand-coded CI-type trials).  A legitimate bra is linear in the many-body state, i.e. bilinear
+    in the alpha and beta minors of the walker: O(up, dn) = sum M[sa, sb] det(up[sa]) det(dn[sb]).  M is fitted to
+    the routine on random complex walkers (basis determinants themselves are singular points of the Green's-function
+    formulas) and verified on a second set; a residual above tol means the routine is not a wave function at all.
+    overlap_fn(up, dn) for unrestricted, overlap_fn(w) for restricted routines (then only the part of M that is
+    symmetric under exchange of the two strings is determined, which is all that restricted walkers ever see)."""
+    rs = np.random.RandomState(seed)
+    da, db = sec.da, sec.db
+
+    def minors(w, strs):
+        return np.array([np.linalg.det(w[list(st), :]) for st in strs])
+
+    def sample(n):
+        rows, vals = [], []
+        for _ in range(n):
+            up = rs.normal(size=(sec.norb, sec.nup)) + 1j * rs.normal(size=(sec.norb, sec.nup))
+            if restricted:
+                dn = up[:, : sec.ndn]
+                val = overlap_fn(up)
+            else:
+                dn = rs.normal(size=(sec.norb, sec.ndn)) + 1j * rs.normal(size=(sec.norb, sec.ndn))
+                val = overlap_fn(up, dn)
+            ma, mb = minors(up, sec.sa), minors(dn, sec.sb)
+            if restricted:
+                f = np.outer(ma, mb)
+                f = f + f.T - np.diag(np.diag(f))
+                rows.append(f[np.triu_indices(da)])
+            else:
+                rows.append(np.outer(ma, mb).ravel())
+            vals.append(complex(val))
+        return np.array(rows), np.array(vals)
+
+    nunk = da * (da + 1) // 2 if restricted else da * db
+    A, b = sample(3 * nunk + 8)
+    x, *_ = np.linalg.lstsq(A, b, rcond=None)
+    A2, b2 = sample(nunk + 8)
+    res = float(np.max(np.abs(A2 @ x - b2) / np.maximum(np.abs(b2), 1e-12)))
+    if not res <= tol:
+        raise ValueError(f"overlap routine is not bilinear in the walker's minors (relative residual {res:.2e})")
+    if restricted:
+        M = np.zeros((da, da), dtype=complex)
+        M[np.triu_indices(da)] = x
+        M = M + M.T - np.diag(np.diag(M))
+    else:
+        M = x.reshape(da, db)
+    return np.conj(M).ravel()
+
+
 def overlap(psi, phi):
     return np.vdot(psi, phi)
 
